@@ -35,6 +35,17 @@ def mc_step(work, module, cfg, workers=8, timeout=900, xmx="6g", extra=(), scope
 
 
 # =========================================================================== responder campaigns
+def _prefix_scenario(scs, sc):
+    """all scenarios of the shard up to and including sc, as one scenario (for position-dependent failures)"""
+    lines = []
+    for x in scs:
+        lines.append("MARK " + x.name)
+        lines += x.lines
+        if x is sc:
+            break
+    return Scenario(sc.name + "+shard-prefix", lines)
+
+
 def _run_shard(work, binp, check, idx, scs, module="ResponderTrace.tla"):
     """Run one shard; on rejection drop the offending scenario and go on, so that the rest of the
     shard is still validated.  Returns (stats, [(scenario, why)])."""
@@ -65,7 +76,7 @@ def _run_shard(work, binp, check, idx, scs, module="ResponderTrace.tla"):
                 nxt = ln
             sc = vlib.scenario_at(spans, min(nxt, len(lines) - 1)) or todo[-1]
             why = "harness rc=%s (crash/sanitizer/hang) at script line %d: %s" % (rc, nxt, _san_summary(err))
-            bad.append((sc, why))
+            bad.append((sc, why, list(todo)))
             todo = [s for s in todo if s is not sc]
             if len(bad) >= MAX_VIOLATIONS:
                 break
@@ -84,7 +95,7 @@ def _run_shard(work, binp, check, idx, scs, module="ResponderTrace.tla"):
         if sc is None:
             raise Infra("rejected at line %s which belongs to no scenario" % v["ln"])
         bad.append((sc, "trace rejected by the specification at script line %d (event %d) with Check=%s"
-                    % (v["ln"] - [a for a, b, s in spans if s is sc][0], v["rejected_at"], ",".join(sorted(check)))))
+                    % (v["ln"] - [a for a, b, s in spans if s is sc][0], v["rejected_at"], ",".join(sorted(check))), list(todo)))
         todo = [s for s in todo if s is not sc]
         if len(bad) >= MAX_VIOLATIONS:
             break
@@ -147,13 +158,18 @@ def run_campaign(prop, check, scenarios, seed, work, binp, module="ResponderTrac
     for stats, bad in results:
         for k in tot:
             tot[k] += stats[k]
-        for sc, why in bad:
+        for sc, why, shard_scs in bad:
             if nconf >= 8:        # enough confirmed violations to act on; the rest are not re-run
                 continue
             nconf += 1
             again, why2 = confirm(work, binp, check, sc, module)
             if not again:
-                raise Infra("rejection of scenario %s did not repeat when run alone (%s)" % (sc.name, why))
+                # the failure may depend on what ran before it in the same process (state that outlives an
+                # interface): repeat with the shard's prefix; that combined script is then the replay
+                sc = _prefix_scenario(shard_scs, sc)
+                again, why2 = confirm(work, binp, check, sc, module)
+                if not again:
+                    raise Infra("rejection of scenario %s repeated neither alone nor after its shard prefix (%s)" % (sc.name, why))
             k = match_known(prop, sc, why + " " + why2)
             if k:
                 known.append((k, sc))
